@@ -73,6 +73,16 @@ static void c_natcmp(Res *res) { int d = 99; int r = wcsnatcmp_p(L"File10 Name",
 static void c_fprintf_ls(Res *res) { char *mb = NULL; size_t ml = 0; tracking = 0; FILE *f = open_memstream(&mb, &ml); tracking = 1; int r = fprintf_p(f, "[%ls|%Lf]", L"stream", (long double)1.5); tracking = 0; fclose(f); __libc_free(mb); tracking = 1; res->rc = r; res->failind = r < 0; res->has_dest = 0; res->dest_cleared = 1; }
 
 
+/* a stream has no bound that would stop a call whose conversion failed: hex-float and long double text of 64 characters and more comes from the heap */
+static void c_fprintf_a_long(Res *res) { char *mb = NULL; size_t ml = 0; tracking = 0; FILE *f = open_memstream(&mb, &ml); tracking = 1; int r = fprintf_p(f, "[%.70a] and the rest of the line\n", 1.0 / 3); tracking = 0; fclose(f); __libc_free(mb); tracking = 1; res->rc = r; res->failind = r < 0; res->has_dest = 0; res->dest_cleared = 1; }
+static void c_fprintf_La_long(Res *res) { char *mb = NULL; size_t ml = 0; tracking = 0; FILE *f = open_memstream(&mb, &ml); tracking = 1; int r = fprintf_p(f, "[%.70La] and the rest of the line\n", (long double)1.0 / 3); tracking = 0; fclose(f); __libc_free(mb); tracking = 1; res->rc = r; res->failind = r < 0; res->has_dest = 0; res->dest_cleared = 1; }
+static void c_fprintf_Lf_long(Res *res) { char *mb = NULL; size_t ml = 0; tracking = 0; FILE *f = open_memstream(&mb, &ml); tracking = 1; int r = fprintf_p(f, "[%.70Lf] and the rest of the line\n", (long double)1.0 / 3); tracking = 0; fclose(f); __libc_free(mb); tracking = 1; res->rc = r; res->failind = r < 0; res->has_dest = 0; res->dest_cleared = 1; }
+/* a directive of 64 characters and more (repeated flags are legal) is itself copied to the heap; here its conversion cannot succeed (dest too small) or can */
+#define LONGDIR "%0000000000000000000000000000000000000000000000000000000000000012.3"
+static void c_longdir_nospc(Res *res) { prep(); int r = sprintf_p(cd, 8, BOSU, "[" LONGDIR "Lf] t", (long double)3.25); CRES(r); }
+static void c_longdir_ok(Res *res) { prep(); int r = sprintf_p(cd, 64, BOSU, "[" LONGDIR "Lf] t", (long double)3.25); CRES(r); }
+static void c_longdir_La_nospc(Res *res) { prep(); int r = sprintf_p(cd, 8, BOSU, "[" LONGDIR "La] t", (long double)3.25); CRES(r); }
+static void c_longdir_trunc(Res *res) { prep(); int r = snprintf_p(cd, 8, BOSU, "[" LONGDIR "Le] t", (long double)3.25); CRES(r); }
 /* the v-entry points have their own probe buffers: reached through a va_list */
 static int (*vswprintf_p)(wchar_t *, size_t, size_t, const wchar_t *, va_list);
 static int (*vsnwprintf_p)(wchar_t *, size_t, size_t, const wchar_t *, va_list);
@@ -102,6 +112,8 @@ static struct { const char *name; void (*fn)(Res *); } cases[] = {
     { "vswprintf_nospc_big", c_vsw_nospc_big }, { "vsnwprintf_nospc_big", c_vsnw_nospc_big }, { "swprintf_badmb_big", c_sw_badmb_big }, { "swprintf_badmb_small", c_sw_badmb_small }, { "vswprintf_badmb_big", c_vsw_badmb_big },
     { "snwprintf_badmb_big", c_snw_badmb_big }, { "vsnwprintf_badmb_big", c_vsnw_badmb_big }, { "swprintf_ok_big", c_sw_ok_big }, { "vswprintf_ok_big", c_vsw_ok_big },
     { "wcsnorm_two_long_mark_runs_nfc", c_norm_tworuns_nfc }, { "wcsnorm_two_long_mark_runs_nfd", c_norm_tworuns_nfd }, { "wcsnatcmp_fold_expanding", c_natcmp_exp }, { "wcsnatcmp_fold_expanding_src", c_natcmp_exp_src }, { "wcsicmp_expanding", c_icmp_exp },
+    { "fprintf_a_70_digits", c_fprintf_a_long }, { "fprintf_La_70_digits", c_fprintf_La_long }, { "fprintf_Lf_70_digits", c_fprintf_Lf_long },
+    { "sprintf_long_directive_nospc", c_longdir_nospc }, { "sprintf_long_directive", c_longdir_ok }, { "sprintf_long_directive_La_nospc", c_longdir_La_nospc }, { "snprintf_long_directive_trunc", c_longdir_trunc },
 };
 #define NC ((int)(sizeof cases / sizeof cases[0]))
 static int verbose; static long n_runs, n_viol;
